@@ -179,7 +179,7 @@ def read(path):
     from astropy.table import Table
 
     with quiet():
-        return Table.read(path, format="fits")
+        return Table.read(path, format="fits")  # intermediate output is FITS whatever the file is called
 
 
 # keywords the FITS time standard / astropy add for a Time column; not stage results
@@ -218,7 +218,7 @@ def check_snapshot(snap, final, model, j, what, unrepresentable=()):
 
 def files_equal(path, snap_path):
     """Same content as a table (bytes differ by the checksum/date cards astropy may add)."""
-    a, b = read(path), read(snap_path)
+    a, b = read(path), read(snap_path)  # (callers wrap this in cut(): an unreadable file is a violation)
     if list(a.colnames) != list(b.colnames) or len(a) != len(b):
         return False
     for n in a.colnames:
@@ -230,7 +230,7 @@ def files_equal(path, snap_path):
 
 def baseline(case, tmp):
     """Un-faulted run: final table (read back), snapshots, model."""
-    out = os.path.join(tmp, "base.fits")
+    out = os.path.join(tmp, "base" + case.get("ext", ".fits"))
     snaps = os.path.join(tmp, "snaps")
     os.makedirs(snaps, exist_ok=True)
     spy = WriteSpy(out, snap_dir=snaps)
@@ -239,7 +239,8 @@ def baseline(case, tmp):
     model = stage_model(case, len(tab) > 0)
     require(spy.count == len(model), f"{spy.count} intermediate writes for a run with {len(model)} stage stores ({[t for _, _, t in model]})")
     require(os.path.exists(out), "intermediate writing enabled but no output file exists")
-    final = read(out)
+    with cut(f"reading the staged output file {os.path.basename(out)!r} as a FITS table"):
+        final = read(out)
     require(list(final.colnames) == list(tab.colnames) and len(final) == len(tab), "the file after the last stage is not the returned table")
     nan_keys = set()
     for k, v in tab.meta.items():
@@ -265,7 +266,7 @@ def body_raise(case):
         for k in range(0, n):
             # (a) the next intermediate write (#k+1) fails before touching the file
             if "write" in kinds:
-                out = os.path.join(tmp, f"w{k}.fits")
+                out = os.path.join(tmp, f"w{k}" + case.get("ext", ".fits"))
                 spy = WriteSpy(out, raise_at=k + 1)
                 try:
                     run(case, out, True, spy)
@@ -280,7 +281,7 @@ def body_raise(case):
             # (b) the stage that produces store k+1 raises
             tag = model[k][2]
             if "stage" in kinds and not tag.endswith("_meta"):
-                out = os.path.join(tmp, f"s{k}.fits")
+                out = os.path.join(tmp, f"s{k}" + case.get("ext", ".fits"))
                 spy = WriteSpy(out)
                 with stage_fault(tag, case):  # (patching errors are harness errors: outside the try)
                     try:
@@ -296,7 +297,7 @@ def body_raise(case):
             if 1 <= k < n - 1:
                 labels.add("interior_boundary")
         # intermediate writing disabled: nothing is written by the simulation itself
-        out = os.path.join(tmp, "off.fits")
+        out = os.path.join(tmp, "off" + case.get("ext", ".fits"))
         spy = WriteSpy(out)
         with cut("compute(write_stages=False, output_file=...)"):
             run(case, out, False, spy)
@@ -341,7 +342,7 @@ def body_death(case):
         tab, final, model, snaps = baseline(case, tmp)
         n = len(model)
         for k in sorted({1 + (p % n) for p in case["picks"]}):
-            out = os.path.join(tmp, f"d{k}.fits")
+            out = os.path.join(tmp, f"d{k}" + case.get("ext", ".fits"))
             ctx = mp.get_context("spawn")
             p = ctx.Process(target=_child, args=(case, out, k))
             p.start()
@@ -378,6 +379,8 @@ def conf_case(kinds):
             "afl": st.sampled_from([math.radians(7.0), math.radians(3.0)]),
             "seed": st.integers(0, 2**31 - 1),
             "kinds": kinds,
+            # the output name is the user's: the staged file is FITS whatever the name looks like
+            "ext": st.sampled_from([".fits", ".fits", ".fit", "", ".ecsv", ".h5", ".txt", ".dat", ".fits.tmp"]),
             "picks": st.lists(st.integers(0, 100), min_size=2, max_size=3),
         }
     )
@@ -391,6 +394,8 @@ def _exhaustive_defaults(tier):
     yield _default_case("Diffuse")
     yield _default_case("Target")
     yield dict(_default_case("Diffuse"), n=0)
+    yield dict(_default_case("Diffuse"), ext="", optical=False, kinds=["write"])
+    yield dict(_default_case("Diffuse"), ext=".ecsv", optical=False, kinds=["write"])
     yield dict(_default_case("Target"), aim=None, ra=0.0, dec=1.55, lat=1.55)
 
 
